@@ -74,8 +74,8 @@ FLAVOURS = {
                 "-D" + GUARD],
         ldflags=["-fsanitize=address,undefined"],
         env={"ASAN_OPTIONS": "abort_on_error=1:detect_leaks=0:strict_string_checks=1:"
-                             "detect_stack_use_after_return=1:allocator_may_return_null=1:"
-                             "handle_abort=0:symbolize=1",
+                             "detect_stack_use_after_return=1:allocator_may_return_null=0:"
+                             "max_allocation_size_mb=1024:handle_abort=0:symbolize=1",
              "UBSAN_OPTIONS": "print_stacktrace=1:symbolize=1"},
     ),
     "tsan": dict(
@@ -104,8 +104,8 @@ FLAVOURS = {
                 "-fno-sanitize=vptr,object-size", "-fno-sanitize-recover=all",
                 "-D" + GUARD],
         ldflags=["-fsanitize=fuzzer,address,undefined"],
-        env={"ASAN_OPTIONS": "abort_on_error=1:detect_leaks=0:allocator_may_return_null=1:"
-                             "quarantine_size_mb=8",
+        env={"ASAN_OPTIONS": "abort_on_error=1:detect_leaks=0:allocator_may_return_null=0:"
+                             "max_allocation_size_mb=1024:quarantine_size_mb=8",
              "UBSAN_OPTIONS": "print_stacktrace=1"},
     ),
 }
@@ -350,6 +350,13 @@ def classify_report(text):
         kind = "asan:" + m.group(1)
         if m.group(1) == "SEGV":
             kind = "asan:SEGV"
+    if kind is None and re.search(r"SUMMARY: libFuzzer: (out-of-memory|timeout)", text):
+        kind = "limit:libfuzzer-" + re.search(r"SUMMARY: libFuzzer: ([\w-]+)", text).group(1)
+    if kind in ("asan:allocation-size-too-big", "asan:out-of-memory", "asan:rss-limit-exceeded", "asan:calloc-overflow"):
+        kind = "limit:" + kind[5:]
+    elif kind in ("asan:requested", "asan:allocator"):
+        # "requested allocation size 0x.. exceeds maximum supported size" / "allocator is out of memory trying to allocate"
+        kind = "limit:allocation-size-too-big"
     if kind is None:
         m = re.search(r"runtime error: (.+)", text)
         if m:
@@ -639,9 +646,10 @@ class Check:
             if v["key"] == full:
                 v["count"] += 1
                 return
-        os.makedirs(os.path.join(VERIF, "replay"), exist_ok=True)
+        rdir = os.environ.get("VERIF_REPLAY_DIR") or os.path.join(VERIF, "replay")
+        os.makedirs(rdir, exist_ok=True)
         self._replay_n += 1
-        path = os.path.join(VERIF, "replay", "%s-%s-s%d-%03d.json" % (self.prop, self.tier, self.seed, self._replay_n))
+        path = os.path.join(rdir, "%s-%s-s%d-%03d.json" % (self.prop, self.tier, self.seed, self._replay_n))
         obj = dict(replay_obj)
         obj.update(property=self.prop, key=full, detail=detail, seed=self.seed, tier=self.tier)
         with open(path, "w") as fh:
